@@ -52,7 +52,7 @@ def functions():
 def bounds(tier):
     q = tier == "quick"
     return {
-        "script_events": "8 (7 with no-reply requests)" if q else "10 (9)",
+        "script_events": "8 (7 with no-reply requests)" if q else "9 (8)",
         "requests": 3,
         "consecutive_connect_failures": "0..3",
         "outside": "more than 3 requests; retry policies other than n -> n",
@@ -65,9 +65,9 @@ def limits(tier):
 
 def jobs(tier):
     q = tier == "quick"
-    return [{"K": 8 if q else 10, "noreply": False}, {"K": 7 if q else 9, "noreply": True},
+    return [{"K": 8 if q else 9, "noreply": False}, {"K": 7 if q else 8, "noreply": True},
             # the endpoint's connect() may fail before it returns (already-failed Deferred)
-            {"K": 7 if q else 9, "noreply": False, "sync": True}]
+            {"K": 7 if q else 8, "noreply": False, "sync": True}]
 
 
 class _FirstN:
